@@ -543,6 +543,10 @@ func (c *HostClient) doNonNilReqResp(req *protocol.Request, resp *protocol.Respo
 	customSkipBody := resp.SkipBody
 	resp.Reset()
 	resp.SkipBody = customSkipBody
+	// What this exchange sets for its own purposes (a HEAD request) is not the
+	// caller's wish: a Response that is used again for the next request must not
+	// carry it along, or that request's body stays unread on the connection.
+	defer func() { resp.SkipBody = customSkipBody }()
 
 	if c.DisablePathNormalizing {
 		req.URI().DisablePathNormalizing = true
